@@ -636,6 +636,16 @@ def r13_suffix_code_over_data(ctx):
         raise AnalysisError('only %d same-position segments interpreted' % n_groups)
 
 
+def r14_paths_parse(ctx):
+    """a node can only be fetched again by the path it reports if that path parses into its own parts: the path grammar
+    (C17.R1) covers every qualifier and index the loader writes, and every node path of every map parses back into
+    the node's segment id, qualifier and index (C17.R5) - shared"""
+    from . import c17
+    for fn in (c17.r1_languages, c17.r5_map_paths):
+        for o in fn(ctx):
+            yield o
+
+
 def r12_lookup_by_own_key(ctx):
     """the index is only unambiguous if the lookup uses the whole key: get_filename / get_abbr read every key field they
     are given (a parameter that is never read cannot separate the entries that differ in it - and the index has such
@@ -705,6 +715,7 @@ RULES = [
     Rule('C16.R9', 'loaded map nodes are read-only outside their constructors (only parameterless path caches)', r9_nodes_immutable, floor=2),
     Rule('C16.R10', 'the table loaders store every entry of codes.xml / dataele.xml / maps.xml', r10_loaders_keep_every_entry, floor=3),
     Rule('C16.R12', 'index lookups read the whole key; the scan condition finds every entry by its own key (evaluated over maps.xml)', r12_lookup_by_own_key, floor=6),
+    Rule('C16.R14', 'shared with C17.R1/R5: every node path parses into the node\'s own parts under the path grammar', r14_paths_parse, floor=2000),
     Rule('C16.R13', 'loop_if.__init__ / guess_unique_key_id_element interpreted over every map: same-position segments get the model\'s qualifier suffix', r13_suffix_code_over_data, floor=100),
     Rule('C16.R11', 'getnodebypath2 uses the element index for the element and the component index for the component', r11_designator_levels, floor=2),
 ]
